@@ -80,6 +80,9 @@ impl State {
         }
     }
 
+    #[cfg_attr(kani, kani::requires(verif::c56::pre_write_closed(self)))]
+    #[cfg_attr(kani, kani::modifies(self))]
+    #[cfg_attr(kani, kani::ensures(|_| verif::c56::post_write_closed(&old(*self), self)))]
     pub(crate) fn write_closed(&mut self) {
         match self {
             State::ClosingWrite {
@@ -108,6 +111,9 @@ impl State {
         }
     }
 
+    #[cfg_attr(kani, kani::requires(verif::c56::pre_close_write_message_sent(self)))]
+    #[cfg_attr(kani, kani::modifies(self))]
+    #[cfg_attr(kani, kani::ensures(|_| verif::c56::post_close_write_message_sent(&old(*self), self)))]
     pub(crate) fn close_write_message_sent(&mut self) {
         match self {
             State::ClosingWrite { inner, read_closed } => {
@@ -128,6 +134,9 @@ impl State {
         }
     }
 
+    #[cfg_attr(kani, kani::requires(verif::c56::pre_read_closed(self)))]
+    #[cfg_attr(kani, kani::modifies(self))]
+    #[cfg_attr(kani, kani::ensures(|_| verif::c56::post_read_closed(&old(*self), self)))]
     pub(crate) fn read_closed(&mut self) {
         match self {
             State::ClosingRead {
@@ -156,6 +165,9 @@ impl State {
         }
     }
 
+    #[cfg_attr(kani, kani::requires(verif::c56::pre_close_read_message_sent(self)))]
+    #[cfg_attr(kani, kani::modifies(self))]
+    #[cfg_attr(kani, kani::ensures(|_| verif::c56::post_close_read_message_sent(&old(*self), self)))]
     pub(crate) fn close_read_message_sent(&mut self) {
         match self {
             State::ClosingRead {
@@ -188,6 +200,7 @@ impl State {
     }
 
     /// Acts as a "barrier" for [`futures::AsyncRead::poll_read`].
+    #[cfg_attr(kani, kani::ensures(|r: &io::Result<()>| verif::c56::post_read_barrier(self, r)))]
     pub(crate) fn read_barrier(&self) -> io::Result<()> {
         use State::*;
 
@@ -210,6 +223,7 @@ impl State {
     }
 
     /// Acts as a "barrier" for [`futures::AsyncWrite::poll_write`].
+    #[cfg_attr(kani, kani::ensures(|r: &io::Result<()>| verif::c56::post_write_barrier(self, r)))]
     pub(crate) fn write_barrier(&self) -> io::Result<()> {
         use State::*;
 
@@ -233,6 +247,8 @@ impl State {
     }
 
     /// Acts as a "barrier" for [`futures::AsyncWrite::poll_close`].
+    #[cfg_attr(kani, kani::modifies(self))]
+    #[cfg_attr(kani, kani::ensures(|r: &io::Result<Option<Closing>>| verif::c56::post_close_write_barrier(&old(*self), self, r)))]
     pub(crate) fn close_write_barrier(&mut self) -> io::Result<Option<Closing>> {
         loop {
             match &self {
@@ -277,6 +293,8 @@ impl State {
     }
 
     /// Acts as a "barrier" for [`Stream::poll_close_read`](super::Stream::poll_close_read).
+    #[cfg_attr(kani, kani::modifies(self))]
+    #[cfg_attr(kani, kani::ensures(|r: &io::Result<Option<Closing>>| verif::c56::post_close_read_barrier(&old(*self), self, r)))]
     pub(crate) fn close_read_barrier(&mut self) -> io::Result<Option<Closing>> {
         loop {
             match self {
@@ -504,4 +522,9 @@ mod tests {
 
         assert!(buffer.is_empty());
     }
+}
+
+#[cfg(kani)]
+pub(crate) mod verif {
+    include!(concat!(env!("LIBP2P_VERIF"), "/hooks/webrtc_stream_state.rs"));
 }
